@@ -50,10 +50,15 @@ ASSUMPTIONS = [
     'lru_cache / dict memoisation keys are str or tuples of str (== is structural equality)',
 ]
 TRUSTED = [
-    'hand-written model coq/Model/C02.v of ResourceTreeTraverser.__call__ (loop skeleton shape-pinned, returned '
-    'dictionaries / vpath_tuple expression / selector / safe set regenerated), traverse, find_resource, '
-    'traversal_path(_info), decode_path_info, quote_path_segment, _join_path_tuple',
-    'Lib/PathNorm.split_path_info (shape-pinned), Lib/Utf8 (CPython strict UTF-8), Lib/Percent (urllib quote / unquote_to_bytes)',
+    'translator harness/c02/translate.py: its PRIMITIVE TABLE (which Python leaf expression / method / try shape / dict '
+    'literal corresponds to which Gallina primitive of Model/C02_base.v, Lib/Text, Lib/C02Expr -- listed in its docstring) '
+    'is trusted; its control-flow rules are mechanical; anything outside subset or table is a broken tie, never a guess',
+    'hand-written reference model coq/Model/C02.v (proved equal to the regenerated program for split_path_info, '
+    'decode_path_info, traversal_path_info and the part of ResourceTreeTraverser.__call__ from `root = self.root` on); '
+    'hand-modelled AND shape-pinned: the preamble of __call__ (match dictionary / PATH_INFO / virtual-root header), traverse, '
+    'find_resource, traversal_path, quote_path_segment, _join_path_tuple, find_root, ascii_, url_quote, lineage',
+    'Lib/Utf8 (CPython strict UTF-8), Lib/Percent (urllib quote / unquote_to_bytes), Lib/Text (str.strip/split): modelled, '
+    'validated by correspondence',
     'webob: Request.blank/environ_from_url/compat.unquote (modelled incl. the int(x,16) leniency), '
     'BaseRequest.path_info decoding -- validated by the correspondence run, not verified',
     'Router.handle_request, traversal part (attrs[\'root\'] = root; tdict = traverser(request); attrs.update(tdict)): '
@@ -61,9 +66,12 @@ TRUSTED = [
     'route matching (urldispatch + the traverse= pseudo predicate) is an ORACLE for the `route` operations: the match '
     'dictionary handed to the model is the one the real routes mapper returns (C01 verifies the matcher)',
 ]
-TECHNIQUE = ('Coq proof (induction over the segment list / the walk) on a hand-written Gallina model whose data-like parts '
-             'are regenerated from the source + extracted-model differential correspondence over histories')
-LEVEL_TEXT = ('Machine-checked theorems for trees, paths and virtual roots of any size: the loop of '
+TECHNIQUE = ('Coq proof (induction over the segment list / the walk) about a Gallina program whose control flow is translated '
+             'from the Python source on every run (fail-closed ast translator, leaves through a small primitive table), proved '
+             'equal to a hand-written reference model + extracted-model differential correspondence over histories')
+LEVEL_TEXT = ('Machine-checked theorems for trees, paths and virtual roots of any size, stated about the program REGENERATED '
+              'from traversal.py on this run (split_path_info, decode_path_info, traversal_path_info, the walk part of '
+              '__call__; C02_gen_*_is_model tie it to the reference model): the loop of '
               'ResourceTreeTraverser.__call__ equals the declarative outcome (context = resource at the longest walkable '
               'prefix, view name / subpath from the rest, virtual root = resource at the virtual-root segments, walk never '
               "leaves the virtual root's subtree), the characterisation of the walk is unique, '..' never climbs above the "
@@ -73,8 +81,9 @@ LEVEL_TEXT = ('Machine-checked theorems for trees, paths and virtual roots of an
               'segment quotings) never changes an answer. `traversed` is proved equal to the consumed segments without a virtual '
               'root or when the path is exhausted, and refuted otherwise (known finding). The percent/UTF-8 plumbing of '
               'traverse()/find_resource() is modelled here and validated by correspondence (its round trip is proved in C07).')
-LEVEL_NOTE = ('Trusted: Coq kernel; hand-written model (shape-pinned skeleton, regenerated expressions, validated by '
-              'correspondence); Python harness; webob request parsing and CPython codecs modelled and validated, not verified. '
+LEVEL_NOTE = ('Trusted: Coq kernel; the translator (mechanical control-flow rules + the primitive table in the docstring of '
+              'harness/c02/translate.py -- the table is the trusted part); the hand-written model of what is not translated '
+              '(preamble of __call__, traverse()/find_resource plumbing: shape-pinned, validated by correspondence); Python harness; webob request parsing and CPython codecs modelled and validated, not verified. '
               'The history clause is proved for the memo state machines of Proofs/C02 and validated on the real caches by '
               'running every case as a history in one process.')
 
